@@ -100,8 +100,11 @@ fn write_async_soap_call<W>(writer: &mut W, operation_name: &str, operation: &So
 where
     W: io::Write,
 {
-    // generate an async fn for the operation
-    let rust_fn_name = as_field_name(operation_name);
+    // generate an async fn for the operation; `new` is the constructor of the client struct
+    let rust_fn_name = match as_field_name(operation_name) {
+        name if name == "new" => "new_".to_string(),
+        name => name,
+    };
     // the envelopes are emitted under the PascalCase form of the operation name
     let operation_name = not_starting_with_a_digit(to_pascal_case(operation_name));
     let request_name = format!("{operation_name}InputEnvelope");
